@@ -1,1 +1,291 @@
-// verification harness (compiled into ntp-proto/src/time_types.rs under cfg(all(test, pendulum_project_ntpd_rs_verif)))
+// Harness for spec/TimeArith.tla (C32): evaluates the real NtpTimestamp / NtpDuration / PollInterval operations on the
+// images of the W = 8 model operands under the embeddings of DESIGN.md 5.1
+//   "hi": x |-> x * 2^56 (ring homomorphism, preserves sign / order / wrap / saturation; MIN |-> i64::MIN, saturated MAX |-> i64::MAX)
+//   "lo": x |-> x (sign extended; compared when the model did not wrap or saturate)
+// each under catch_unwind, and compares with the image of the model's result.  The float / wire-format clauses are
+// evaluated here in i128 / f64 on the boundary classes TLC enumerates.
+// Compiled into ntp-proto/src/time_types.rs under cfg(all(test, pendulum_project_ntpd_rs_verif)).
+#![allow(clippy::all, dead_code)]
+
+use super::{NtpDuration, NtpTimestamp, PollInterval, PollIntervalLimits};
+use serde_json::{Value, json};
+
+#[path = "/verif/harness/common/util.rs"]
+mod util;
+use util::{i, s};
+
+const SH: u32 = 56;
+
+fn ts(x: u64) -> NtpTimestamp {
+    NtpTimestamp { timestamp: x }
+}
+fn du(x: i64) -> NtpDuration {
+    NtpDuration { duration: x }
+}
+
+/// image of a model duration value under "hi", honouring the saturation flag
+fn img(v: i64, sat: &str) -> i64 {
+    match sat {
+        "max" => i64::MAX,
+        "min" => i64::MIN,
+        _ => v << SH,
+    }
+}
+
+struct Fail {
+    emb: &'static str,
+    field: &'static str,
+    detail: Value,
+}
+
+fn check_i64(emb: &'static str, what: &str, r: Result<i64, String>, expected: i64, fails: &mut Vec<Fail>) {
+    match r {
+        Err(p) => fails.push(Fail { emb, field: "panic", detail: json!({"variant": what, "panic": p, "expected": expected.to_string()}) }),
+        Ok(got) if got != expected => {
+            fails.push(Fail { emb, field: "v", detail: json!({"variant": what, "observed": got.to_string(), "expected": expected.to_string()}) })
+        }
+        _ => {}
+    }
+}
+
+fn run_op(act: &Value, out: &Value) -> (Vec<Fail>, u64) {
+    let op = s(act, "op");
+    let a = i(act, "a");
+    let b = i(act, "b");
+    let v = i(out, "v");
+    let sat = s(out, "sat");
+    let mut f = vec![];
+    let mut evals = 0u64;
+    let mut chk = |emb: &'static str, what: &str, r: Result<i64, String>, e: i64, f: &mut Vec<Fail>| {
+        evals += 1;
+        check_i64(emb, what, r, e, f);
+    };
+    match op.as_str() {
+        "TsSub" => {
+            let (ha, hb) = ((a as u64) << SH, (b as u64) << SH);
+            chk("hi", "a - b", util::catch(|| (ts(ha) - ts(hb)).duration), v << SH, &mut f);
+            chk("hi", "b + (a - b)", util::catch(|| (ts(hb) + (ts(ha) - ts(hb))).timestamp as i64), ha as i64, &mut f);
+            chk("hi", "a - (a - b)", util::catch(|| (ts(ha) - (ts(ha) - ts(hb))).timestamp as i64), hb as i64, &mut f);
+            chk("hi", "a.is_before(b)", util::catch(|| ts(ha).is_before(ts(hb)) as i64), (v < 0) as i64, &mut f);
+            if v == a - b {
+                chk("lo", "a - b", util::catch(|| (ts(a as u64) - ts(b as u64)).duration), v, &mut f);
+            }
+            // the same pair of words placed at the top of the 64-bit range: the 64-bit era boundary lies between them
+            let (la, lb) = ((a as u64).wrapping_sub(128), (b as u64).wrapping_sub(128));
+            if v == a - b {
+                chk("lo", "a - b across 2^64", util::catch(|| (ts(la) - ts(lb)).duration), v, &mut f);
+            }
+        }
+        "TsAddDur" | "TsSubDur" => {
+            let add = op == "TsAddDur";
+            let (ht, hd) = ((a as u64) << SH, b << SH);
+            let e = ((v as u64) << SH) as i64;
+            if add {
+                chk("hi", "t + d", util::catch(|| (ts(ht) + du(hd)).timestamp as i64), e, &mut f);
+                chk("hi", "t += d", util::catch(|| { let mut t = ts(ht); t += du(hd); t.timestamp as i64 }), e, &mut f);
+            } else {
+                chk("hi", "t - d", util::catch(|| (ts(ht) - du(hd)).timestamp as i64), e, &mut f);
+                chk("hi", "t -= d", util::catch(|| { let mut t = ts(ht); t -= du(hd); t.timestamp as i64 }), e, &mut f);
+            }
+            let exact = if add { a + b } else { a - b };
+            if exact == v {
+                if add {
+                    chk("lo", "t + d", util::catch(|| (ts(a as u64) + du(b)).timestamp as i64), v, &mut f);
+                } else {
+                    chk("lo", "t - d", util::catch(|| (ts(a as u64) - du(b)).timestamp as i64), v, &mut f);
+                }
+            }
+        }
+        "DurAdd" | "DurSub" => {
+            let add = op == "DurAdd";
+            let (hx, hy) = (a << SH, b << SH);
+            let e = img(v, &sat);
+            if add {
+                chk("hi", "x + y", util::catch(|| (du(hx) + du(hy)).duration), e, &mut f);
+                chk("hi", "x += y", util::catch(|| { let mut x = du(hx); x += du(hy); x.duration }), e, &mut f);
+            } else {
+                chk("hi", "x - y", util::catch(|| (du(hx) - du(hy)).duration), e, &mut f);
+                chk("hi", "x -= y", util::catch(|| { let mut x = du(hx); x -= du(hy); x.duration }), e, &mut f);
+            }
+            if sat == "no" {
+                if add {
+                    chk("lo", "x + y", util::catch(|| (du(a) + du(b)).duration), v, &mut f);
+                } else {
+                    chk("lo", "x - y", util::catch(|| (du(a) - du(b)).duration), v, &mut f);
+                    chk("lo", "x.abs_diff(y)", util::catch(|| du(a).abs_diff(du(b)).duration), v.abs(), &mut f);
+                }
+            }
+        }
+        "DurMul" => {
+            let hx = a << SH;
+            let e = img(v, &sat);
+            chk("hi", "x * k(i64)", util::catch(|| (du(hx) * b).duration), e, &mut f);
+            chk("hi", "k(i64) * x", util::catch(|| (b * du(hx)).duration), e, &mut f);
+            chk("hi", "x * k(i8)", util::catch(|| (du(hx) * (b as i8)).duration), e, &mut f);
+            chk("hi", "x * k(i32)", util::catch(|| (du(hx) * (b as i32)).duration), e, &mut f);
+            chk("hi", "x *= k(i16)", util::catch(|| { let mut x = du(hx); x *= b as i16; x.duration }), e, &mut f);
+            if b >= 0 {
+                chk("hi", "x * k(u8)", util::catch(|| (du(hx) * (b as u8)).duration), e, &mut f);
+                chk("hi", "x * k(u32)", util::catch(|| (du(hx) * (b as u32)).duration), e, &mut f);
+            }
+            if sat == "no" {
+                chk("lo", "x * k", util::catch(|| (du(a) * b).duration), v, &mut f);
+            }
+        }
+        "DurNeg" => {
+            chk("hi", "-x", util::catch(|| (-du(a << SH)).duration), img(v, &sat), &mut f);
+            if sat == "no" {
+                chk("lo", "-x", util::catch(|| (-du(a)).duration), v, &mut f);
+            }
+        }
+        "DurAbs" => {
+            chk("hi", "x.abs()", util::catch(|| du(a << SH).abs().duration), img(v, &sat), &mut f);
+            if sat == "no" {
+                chk("lo", "x.abs()", util::catch(|| du(a).abs().duration), v, &mut f);
+            }
+        }
+        "PollInc" => {
+            let lim = PollIntervalLimits { min: PollInterval(i8::MIN), max: PollInterval(b as i8) };
+            chk("i8", "p.inc(max)", util::catch(|| PollInterval(a as i8).inc(lim).as_log() as i64), v, &mut f);
+        }
+        "PollDec" => {
+            let lim = PollIntervalLimits { min: PollInterval(b as i8), max: PollInterval(i8::MAX) };
+            chk("i8", "p.dec(min)", util::catch(|| PollInterval(a as i8).dec(lim).as_log() as i64), v, &mut f);
+        }
+        "PollForceInc" => {
+            chk("i8", "p.force_inc()", util::catch(|| PollInterval(a as i8).force_inc().as_log() as i64), v, &mut f);
+        }
+        other => panic!("unknown op {other}"),
+    }
+    (f, evals)
+}
+
+fn nudge(x: f64, delta: i64) -> f64 {
+    let bits = x.to_bits();
+    match delta {
+        0 => x,
+        d if (d > 0) == (x > 0.0) => f64::from_bits(bits + 1),
+        _ => f64::from_bits(bits - 1),
+    }
+}
+
+/// float / wire clauses; returns (failures, evaluations, whether the case was non-trivial)
+fn run_float(act: &Value) -> (Vec<Fail>, u64, bool) {
+    let op = s(act, "op");
+    let e = i(act, "e");
+    let delta = i(act, "delta");
+    let neg = act["neg"].as_bool().unwrap();
+    let mut f = vec![];
+    let int_value = || -> Option<i64> {
+        let mut x: i128 = (1i128 << e) + delta as i128;
+        if neg {
+            x = -x;
+        }
+        i64::try_from(x).ok()
+    };
+    match op.as_str() {
+        "RoundTrip" => {
+            let Some(d) = int_value() else { return (f, 0, false) };
+            match util::catch(|| NtpDuration::from_seconds(du(d).to_seconds()).duration) {
+                Err(p) => f.push(Fail { emb: "f64", field: "panic", detail: json!({"d": d.to_string(), "panic": p}) }),
+                Ok(rt) => {
+                    // |rt - d| <= 1e-9 * |d| + 1, in integers
+                    let diff = (rt as i128 - d as i128).abs();
+                    if diff * 1_000_000_000 > (d as i128).abs() + 1_000_000_000 {
+                        f.push(Fail { emb: "f64", field: "ineq", detail: json!({"d": d.to_string(), "round_trip": rt.to_string()}) });
+                    }
+                }
+            }
+            (f, 1, d != 0)
+        }
+        "FromSeconds" => {
+            let mut x = nudge(2f64.powi(e as i32), delta);
+            if neg {
+                x = -x;
+            }
+            if !x.is_finite() {
+                return (f, 0, false);
+            }
+            match util::catch(|| NtpDuration::from_seconds(x).duration) {
+                Err(p) => f.push(Fail { emb: "f64", field: "panic", detail: json!({"seconds": x, "panic": p}) }),
+                Ok(r) => {
+                    let sign_ok = if x > 0.0 { r >= 0 } else if x < 0.0 { r <= 0 } else { r == 0 };
+                    let sat_ok = if x >= 2147483648.0 { r == i64::MAX } else if x < -2147483648.0 { r == i64::MIN } else { true };
+                    // inside the range the value is the seconds scaled by 2^32, to within 1e-9 + 2 units
+                    let exact = x * 4294967296.0;
+                    let in_range = x < 2147483648.0 && x >= -2147483648.0;
+                    let near = !in_range || ((r as f64) - exact).abs() <= 1e-9 * exact.abs() + 2.0;
+                    if !sign_ok || !sat_ok {
+                        f.push(Fail { emb: "f64", field: "ineq", detail: json!({"seconds": x, "result": r.to_string(), "sign_ok": sign_ok, "saturation_ok": sat_ok}) });
+                    } else if !near {
+                        f.push(Fail { emb: "f64", field: "accuracy", detail: json!({"seconds": x, "result": r.to_string()}) });
+                    }
+                }
+            }
+            (f, 1, true)
+        }
+        "Short" | "Time32" => {
+            let Some(d) = int_value() else { return (f, 0, false) };
+            let (limit, unit) = if op == "Short" { (1i64 << 48, 1i64 << 16) } else { (1i64 << 36, 1i64 << 4) };
+            if d < 0 || d >= limit {
+                return (f, 0, false);
+            }
+            let r = if op == "Short" {
+                util::catch(|| NtpDuration::from_bits_short(du(d).to_bits_short()).duration)
+            } else {
+                util::catch(|| NtpDuration::from_bits_time32(du(d).to_bits_time32()).duration)
+            };
+            match r {
+                Err(p) => f.push(Fail { emb: "wire", field: "panic", detail: json!({"d": d.to_string(), "panic": p}) }),
+                Ok(rt) => {
+                    if (rt - d).abs() > unit {
+                        f.push(Fail { emb: "wire", field: "ineq", detail: json!({"d": d.to_string(), "decoded": rt.to_string()}) });
+                    }
+                }
+            }
+            (f, 1, d >= unit)
+        }
+        other => panic!("unknown float op {other}"),
+    }
+}
+
+fn replay(job: &Value) {
+    let mut out = util::NdjsonOut::create(job["output"].as_str().unwrap());
+    use std::io::BufRead;
+    let file = std::fs::File::open(job["input"].as_str().unwrap()).expect("input");
+    let (mut evals, mut cases, mut fl_evals, mut fl_nontrivial) = (0u64, 0u64, 0u64, 0u64);
+    for line in std::io::BufReader::new(file).lines() {
+        let line = line.unwrap();
+        if line.trim().is_empty() {
+            continue;
+        }
+        let c: Value = serde_json::from_str(&line).unwrap();
+        let act = &c["act"];
+        let op = s(act, "op");
+        cases += 1;
+        let fails = if matches!(op.as_str(), "RoundTrip" | "FromSeconds" | "Short" | "Time32") {
+            let (f, n, nt) = run_float(act);
+            fl_evals += n;
+            fl_nontrivial += (nt && n > 0) as u64;
+            f
+        } else {
+            let (f, n) = run_op(act, &c["out"]);
+            evals += n;
+            f
+        };
+        for x in fails {
+            out.put(&json!({"id": c["id"], "act": act, "out": c["out"], "emb": x.emb, "field": x.field, "detail": x.detail}));
+        }
+    }
+    out.put(&json!({"summary": true, "cases": cases, "evaluations": evals, "float_evaluations": fl_evals, "float_nontrivial": fl_nontrivial}));
+    out.finish();
+}
+
+#[test]
+fn verif_time_types() {
+    let job = util::job();
+    match s(&job, "mode").as_str() {
+        "replay" => replay(&job),
+        other => panic!("unknown mode {other}"),
+    }
+}
